@@ -2,14 +2,17 @@
 The bridge for C09: the commitment roots the driver computes with SHA-256 (`Prog.cmrs`) are the
 abstract root function `Cmr.cmr` of the *committed structure* of each node (`commitOf`: combinators,
 jets and words, fail entropy, hidden roots — no witness data, no types, no disconnected branch),
-instantiated with the SHA-256 compression function and tag hashes.  Hence `cmr_hide` and `cmr_inj`
+instantiated with the SHA-256 compression step and tag hashes.  Hence `cmr_hide` and `cmr_inj`
 speak about exactly the numbers that are compared with the implementation.
+
+Everything is proved over arbitrary hash operations (`upd`, `init`, `th`, an IV table `ivn` with
+`ivn name = upd init (th name) (th name)`), so no proof ever evaluates SHA-256; the SHA-256 instance
+is obtained at the end by instantiation.
 -/
 import SimplicityModel.Prog.Merkle
 import SimplicityModel.Cmr
 
 namespace Prog
-open Sha2
 
 def tagStr : Cmr.Tag → String
   | .l .iden => "iden" | .l .unit => "unit" | .l .witness => "witness"
@@ -24,39 +27,48 @@ inductive JW
   | word (n : Nat) (bits : List Bool)
 deriving DecidableEq
 
-/-- the SHA-256 instance of the abstract parameters; `jc` = the jet table -/
-def shaParams (jc : String → Nat) : Cmr.Params where
+section Generic
+variable (upd : Nat → Nat → Nat → Nat) (init : Nat) (th : String → Nat) (ivn : String → Nat)
+  (wordCmr : Nat → List Bool → Nat) (jc : String → Nat)
+
+/-- the abstract parameters built from the hash operations; `jc` = the jet table -/
+def params : Cmr.Params where
   H := Nat
-  compress := fun s b => update2 s b.1 b.2
-  init := natOfState H0
+  compress := fun s b => upd s b.1 b.2
+  init := init
   zero := 0
-  tagHash := fun t => natOfBytes (sha256 (strBytes ("Simplicity\x1fCommitment\x1f" ++ tagStr t)))
+  tagHash := fun t => th (tagStr t)
   J := JW
   jetCmr := fun
     | .jet n => jc n
-    | .word n b => cmrWord n b
+    | .word n b => wordCmr n b
 
-theorem iv_eq (jc : String → Nat) (t : Cmr.Tag) : Cmr.iv (shaParams jc) t = cmrIV (tagStr t) := by
-  simp only [Cmr.iv, shaParams, cmrIV, tag, tagIV]
+/-- the IV table is the table of tagged midstates -/
+def IvOk : Prop := ∀ t : Cmr.Tag, ivn (tagStr t) = upd init (th (tagStr t)) (th (tagStr t))
+
+theorem iv_eq (h : IvOk upd init th ivn) (t : Cmr.Tag) :
+    Cmr.iv (params upd init th wordCmr jc) t = ivn (tagStr t) := (h t).symm
+
+abbrev PP := params upd init th wordCmr jc
 
 /-- the committed structure of node `i` of a plan (fuel ≥ i + 1) -/
-def commitOf (jc : String → Nat) (p : Plan) : Nat → Nat → Cmr.C (shaParams jc)
+def commitOf (p : Plan) : Nat → Nat → Cmr.C (params upd init th wordCmr jc)
   | 0, _ => .leaf .unit
   | f+1, i =>
     match p[i]? with
     | some .iden => .leaf .iden
     | some .unit => .leaf .unit
     | some .witness => .leaf .witness
-    | some (.injl c) => .un .injl (commitOf jc p f c)
-    | some (.injr c) => .un .injr (commitOf jc p f c)
-    | some (.take c) => .un .take (commitOf jc p f c)
-    | some (.drop c) => .un .drop (commitOf jc p f c)
-    | some (.disconnect a _) => .un .disconnect (commitOf jc p f a)
-    | some (.comp a b) => .bin .comp (commitOf jc p f a) (commitOf jc p f b)
-    | some (.case a b) => .bin .case (commitOf jc p f a) (commitOf jc p f b)
-    | some (.pair a b) => .bin .pair (commitOf jc p f a) (commitOf jc p f b)
-    | some (.assertl a h) => .bin .case (commitOf jc p f a) (.hidden h)
-    | some (.assertr h b) => .bin .case (.hidden h) (commitOf jc p f b)
+    | some (.injl c) => .un .injl (commitOf p f c)
+    | some (.injr c) => .un .injr (commitOf p f c)
+    | some (.take c) => .un .take (commitOf p f c)
+    | some (.drop c) => .un .drop (commitOf p f c)
+    | some (.disconnect a _) => .un .disconnect (commitOf p f a)
+    | some (.comp a b) => .bin .comp (commitOf p f a) (commitOf p f b)
+    | some (.case a b) => .bin .case (commitOf p f a) (commitOf p f b)
+    | some (.pair a b) => .bin .pair (commitOf p f a) (commitOf p f b)
+    | some (.assertl a h) => .bin .case (commitOf p f a) (.hidden h)
+    | some (.assertr h b) => .bin .case (.hidden h) (commitOf p f b)
     | some (.fail e) => .fail (failBlock e).1 (failBlock e).2
     | some (.word n bits) => .jet (.word n bits)
     | some (.jet name) => .jet (.jet name)
@@ -66,8 +78,9 @@ def commitOf (jc : String → Nat) (p : Plan) : Nat → Nat → Cmr.C (shaParams
 /-- children refer strictly backwards -/
 def WellIdx (p : Plan) : Prop := ∀ (i : Nat) (nd : Node), p[i]? = some nd → ∀ c ∈ nd.children, c < i
 
-theorem commitOf_fuel2 (jc : String → Nat) (p : Plan) (hw : WellIdx p) :
-    ∀ (n i f g : Nat), i ≤ n → i < f → i < g → commitOf jc p f i = commitOf jc p g i := by
+theorem commitOf_fuel2 (p : Plan) (hw : WellIdx p) :
+    ∀ (n i f g : Nat), i ≤ n → i < f → i < g →
+      commitOf upd init th wordCmr jc p f i = commitOf upd init th wordCmr jc p g i := by
   intro n
   induction n with
   | zero =>
@@ -81,8 +94,30 @@ theorem commitOf_fuel2 (jc : String → Nat) (p : Plan) (hw : WellIdx p) :
     | none => rfl
     | some nd =>
       have hc := hw 0 nd hp
-      cases nd <;> simp only [Node.children, List.mem_cons, List.mem_singleton, List.not_mem_nil,
-        or_false, forall_eq_or_imp, forall_eq] at hc <;> first | rfl | omega
+      have sub : ∀ c, c < 0 → commitOf upd init th wordCmr jc p f' c = commitOf upd init th wordCmr jc p g' c :=
+        fun c hci => absurd hci (Nat.not_lt_zero c)
+      cases nd with
+      | iden | unit | witness | fail _ | word _ _ | jet _ | hidden _ => rfl
+      | injl c | injr c | take c | drop c =>
+        simp only [Node.children, List.mem_singleton, forall_eq] at hc
+        simp only [sub _ hc]
+      | assertl c _ | assertr _ c =>
+        simp only [Node.children, List.mem_singleton, forall_eq] at hc
+        simp only [sub _ hc]
+      | comp a b | case a b | pair a b =>
+        simp only [Node.children, List.mem_cons, List.mem_singleton, List.not_mem_nil, or_false,
+          forall_eq_or_imp, forall_eq] at hc
+        simp only [sub _ hc.1, sub _ hc.2]
+      | disconnect a b =>
+        cases b with
+        | none =>
+          simp only [Node.children, List.mem_singleton, forall_eq] at hc
+          simp only [sub _ hc]
+        | some b =>
+          simp only [Node.children, List.mem_cons, List.mem_singleton, List.not_mem_nil, or_false,
+            forall_eq_or_imp, forall_eq] at hc
+          simp only [sub _ hc.1]
+
   | succ n ih =>
     intro i f g hi hf hg
     obtain ⟨f', rfl⟩ : ∃ f', f = f' + 1 := ⟨f - 1, by omega⟩
@@ -92,7 +127,7 @@ theorem commitOf_fuel2 (jc : String → Nat) (p : Plan) (hw : WellIdx p) :
     | none => rfl
     | some nd =>
       have hc := hw i nd hp
-      have sub : ∀ c, c < i → commitOf jc p f' c = commitOf jc p g' c :=
+      have sub : ∀ c, c < i → commitOf upd init th wordCmr jc p f' c = commitOf upd init th wordCmr jc p g' c :=
         fun c hci => ih c f' g' (by omega) (by omega) (by omega)
       cases nd with
       | iden | unit | witness | fail _ | word _ _ | jet _ | hidden _ => rfl
@@ -116,57 +151,72 @@ theorem commitOf_fuel2 (jc : String → Nat) (p : Plan) (hw : WellIdx p) :
             forall_eq_or_imp, forall_eq] at hc
           simp only [sub _ hc.1]
 
-theorem commitOf_fuel (jc : String → Nat) (p : Plan) (hw : WellIdx p) (f i : Nat) (h : i < f) :
-    commitOf jc p f i = commitOf jc p (i + 1) i :=
-  commitOf_fuel2 jc p hw i i f (i + 1) (Nat.le_refl _) h (Nat.lt_succ_self _)
+theorem commitOf_fuel (p : Plan) (hw : WellIdx p) (f i : Nat) (h : i < f) :
+    commitOf upd init th wordCmr jc p f i = commitOf upd init th wordCmr jc p (i + 1) i :=
+  commitOf_fuel2 upd init th wordCmr jc p hw i i f (i + 1) (Nat.le_refl _) h (Nat.lt_succ_self _)
 
 /-- root of node `i` according to the abstract construction -/
-def rootOf (jc : String → Nat) (p : Plan) (i : Nat) : Nat :=
-  Cmr.cmr (shaParams jc) (commitOf jc p (i + 1) i)
+def rootOf (p : Plan) (i : Nat) : Nat :=
+  Cmr.cmr (params upd init th wordCmr jc) (commitOf upd init th wordCmr jc p (i + 1) i)
 
-/-- one node: the driver's `cmrNode`, given the roots of the children, is the abstract root -/
-theorem cmrNode_eq (jc : String → Nat) (p : Plan) (hw : WellIdx p) (i : Nat) (nd : Node)
-    (hp : p[i]? = some nd) (cm : Nat → Nat) (hcm : ∀ c, c < i → cm c = rootOf jc p c) :
-    cmrNode (fun n => some (jc n)) cm nd = some (rootOf jc p i) := by
+/-- one node: the generic `cmrNodeG`, given the roots of the children, is the abstract root -/
+theorem cmrNodeG_eq (hiv : IvOk upd init th ivn) (p : Plan) (hw : WellIdx p) (i : Nat) (nd : Node)
+    (hp : p[i]? = some nd) (cm : Nat → Nat)
+    (hcm : ∀ c, c < i → cm c = rootOf upd init th wordCmr jc p c) :
+    cmrNodeG upd ivn wordCmr (fun n => some (jc n)) cm nd = some (rootOf upd init th wordCmr jc p i) := by
   have hc := hw i nd hp
-  have fuel : ∀ c, c < i → Cmr.cmr (shaParams jc) (commitOf jc p i c) = rootOf jc p c := by
-    intro c hci; unfold rootOf; rw [commitOf_fuel jc p hw i c hci]
+  have fuel : ∀ c, c < i → Cmr.cmr (params upd init th wordCmr jc) (commitOf upd init th wordCmr jc p i c)
+      = rootOf upd init th wordCmr jc p c := by
+    intro c hci; unfold rootOf; rw [commitOf_fuel upd init th wordCmr jc p hw i c hci]
+  have iv := iv_eq upd init th ivn wordCmr jc hiv
   unfold rootOf
   simp only [commitOf, hp]
   cases nd with
-  | iden | unit | witness => rfl
-  | fail e => rfl
-  | word n bits => rfl
-  | jet name => rfl
-  | hidden h => rfl
+  | iden => simp only [cmrNodeG, Cmr.cmr, iv, tagStr]
+  | unit => simp only [cmrNodeG, Cmr.cmr, iv, tagStr]
+  | witness => simp only [cmrNodeG, Cmr.cmr, iv, tagStr]
+  | fail e =>
+    simp only [cmrNodeG, Cmr.cmr, iv, tagStr]
+    try rfl
+  | word n bits =>
+    simp only [cmrNodeG, Cmr.cmr]
+    try rfl
+  | jet name =>
+    simp only [cmrNodeG, Cmr.cmr]
+    try rfl
+  | hidden h => simp only [cmrNodeG, Cmr.cmr]
   | injl c | injr c | take c | drop c =>
     simp only [Node.children, List.mem_singleton, forall_eq] at hc
-    simp only [cmrNode, Cmr.cmr, fuel _ hc, hcm _ hc]; rfl
+    simp only [cmrNodeG, Cmr.cmr, fuel _ hc, hcm _ hc, iv, tagStr]
+    try rfl
   | assertl c h | assertr h c =>
     simp only [Node.children, List.mem_singleton, forall_eq] at hc
-    simp only [cmrNode, Cmr.cmr, fuel _ hc, hcm _ hc]; rfl
+    simp only [cmrNodeG, Cmr.cmr, fuel _ hc, hcm _ hc, iv, tagStr]
+    try rfl
   | comp a b | case a b | pair a b =>
     simp only [Node.children, List.mem_cons, List.mem_singleton, List.not_mem_nil, or_false,
       forall_eq_or_imp, forall_eq] at hc
-    simp only [cmrNode, Cmr.cmr, fuel _ hc.1, fuel _ hc.2, hcm _ hc.1, hcm _ hc.2]; rfl
+    simp only [cmrNodeG, Cmr.cmr, fuel _ hc.1, fuel _ hc.2, hcm _ hc.1, hcm _ hc.2, iv, tagStr]
+    try rfl
   | disconnect a b =>
     have ha : a < i := by
       cases b <;> simp only [Node.children, List.mem_cons, List.mem_singleton, List.not_mem_nil,
         or_false, forall_eq_or_imp, forall_eq] at hc
       · exact hc
       · exact hc.1
-    simp only [cmrNode, Cmr.cmr, fuel _ ha, hcm _ ha]; rfl
+    simp only [cmrNodeG, Cmr.cmr, fuel _ ha, hcm _ ha, iv, tagStr]
+    try rfl
 
-theorem cmrsGo_eq (jc : String → Nat) (p : Plan) (hw : WellIdx p) :
+theorem cmrsGoG_eq (hiv : IvOk upd init th ivn) (p : Plan) (hw : WellIdx p) :
     ∀ (rest pre : List Node) (acc cs : Array Nat), p.toList = pre ++ rest → pre.length = acc.size →
-      (∀ j, j < acc.size → acc.getD j 0 = rootOf jc p j) →
-      cmrsGo (fun n => some (jc n)) rest acc = some cs →
-      cs.size = acc.size + rest.length ∧ ∀ j, j < cs.size → cs.getD j 0 = rootOf jc p j := by
+      (∀ j, j < acc.size → acc.getD j 0 = rootOf upd init th wordCmr jc p j) →
+      cmrsGoG (cmrNodeG upd ivn wordCmr (fun n => some (jc n))) rest acc = some cs →
+      cs.size = acc.size + rest.length ∧ ∀ j, j < cs.size → cs.getD j 0 = rootOf upd init th wordCmr jc p j := by
   intro rest
   induction rest with
   | nil =>
     intro pre acc cs _ _ hinv h
-    simp only [cmrsGo, Option.some.injEq] at h
+    simp only [cmrsGoG, Option.some.injEq] at h
     subst h
     exact ⟨by simp, hinv⟩
   | cons nd rest ih =>
@@ -175,9 +225,9 @@ theorem cmrsGo_eq (jc : String → Nat) (p : Plan) (hw : WellIdx p) :
       have : p.toList[acc.size]? = some nd := by
         rw [hsplit, ← hlen]; simp
       simpa using this
-    have hn := cmrNode_eq jc p hw acc.size nd hp (fun i => acc.getD i 0) hinv
-    simp only [cmrsGo, hn] at h
-    have := ih (pre ++ [nd]) (acc.push (rootOf jc p acc.size)) cs
+    have hn := cmrNodeG_eq upd init th ivn wordCmr jc hiv p hw acc.size nd hp (fun i => acc.getD i 0) hinv
+    simp only [cmrsGoG, hn] at h
+    have := ih (pre ++ [nd]) (acc.push (rootOf upd init th wordCmr jc p acc.size)) cs
       (by rw [hsplit]; simp) (by simp [hlen])
       (by
         intro j hj
@@ -194,11 +244,35 @@ theorem cmrsGo_eq (jc : String → Nat) (p : Plan) (hw : WellIdx p) :
     · rw [this.1]; simp; omega
     · exact this.2
 
+end Generic
+
+/-! ### the SHA-256 instance -/
+
+/-- the IV table of the driver is the table of SHA-256 tagged midstates -/
+theorem ivTable_ok : IvOk Sha2.update2 (Sha2.natOfState Sha2.H0)
+    (fun s => tagHash ("Simplicity\x1fCommitment\x1f" ++ s)) ivTable := by
+  intro t
+  cases t with
+  | l k => cases k <;> rfl
+  | u k => cases k <;> rfl
+  | b k => cases k <;> rfl
+  | fail => rfl
+
+/-- the SHA-256 instance of the abstract parameters; `jc` = the jet table -/
+abbrev shaParams (jc : String → Nat) : Cmr.Params :=
+  params Sha2.update2 (Sha2.natOfState Sha2.H0) (fun s => tagHash ("Simplicity\x1fCommitment\x1f" ++ s)) cmrWord jc
+
+abbrev shaCommitOf (jc : String → Nat) (p : Plan) (f i : Nat) : Cmr.C (shaParams jc) :=
+  commitOf Sha2.update2 (Sha2.natOfState Sha2.H0) (fun s => tagHash ("Simplicity\x1fCommitment\x1f" ++ s)) cmrWord jc p f i
+
 /-- **The roots the driver computes are the abstract roots of the committed structure.** -/
 theorem cmrs_eq (jc : String → Nat) (p : Plan) (hw : WellIdx p) (cs : Array Nat)
     (h : cmrs (fun n => some (jc n)) p = some cs) :
-    cs.size = p.size ∧ ∀ i, i < p.size → cs.getD i 0 = rootOf jc p i := by
-  have := cmrsGo_eq jc p hw p.toList [] #[] cs (by simp) rfl (by intro j hj; simp at hj) h
+    cs.size = p.size ∧ ∀ i, i < p.size → cs.getD i 0 =
+      Cmr.cmr (shaParams jc) (shaCommitOf jc p (i + 1) i) := by
+  have := cmrsGoG_eq Sha2.update2 (Sha2.natOfState Sha2.H0)
+    (fun s => tagHash ("Simplicity\x1fCommitment\x1f" ++ s)) ivTable cmrWord jc ivTable_ok p hw
+    p.toList [] #[] cs (by simp) rfl (by intro j hj; simp at hj) h
   constructor
   · simpa using this.1
   · intro i hi; exact this.2 i (by rw [this.1]; simpa using hi)
